@@ -364,3 +364,70 @@ def run(ctx, rep):
         okget = tp == {(("arg", 1), ("@Value", "0"))}
     rep.ob("C19.result-pass-through", "ReturnValue::get: Value(v) => Some(v)", "ok" if okget else "violated",
            "", rg.span, fn=rg.path)
+    any_symbol_name_is_handed_on(ctx, rep)
+
+
+def any_symbol_name_is_handed_on(ctx, rep, rule="C19.symbol"):
+    """`call_lib LIB NAME` calls the function NAME of LIB - whatever NAME is: an exported symbol is an arbitrary byte string (`text.join` through
+    #[export_name], legacy-mangled Rust names with `$` and `..`, non-ASCII names).  The handler is evaluated abstractly on concrete argument pairs
+    with such names (std's `str::chars`, `char::is_ascii_*`, `str::is_empty`, iterator `all` / `any` on known text are modelled): with two
+    arguments present every path succeeds and signals the jump request; a path that fails on the spelling of the name means the named function
+    is never called."""
+    import jumps
+    import absint
+    from props import _opstack, _hashkeys
+    from absint import Int, Str, Tup, Ptr
+    F = ctx.facts("default", ["bytecode"])
+    fn = F.fn("bytecode::instruction::implementations::call_lib")
+    if fn is None:
+        raise AnchorMissing("call_lib handler")
+
+    def deref(it, p, v):
+        k = 0
+        while isinstance(v, Ptr) and k < 6:
+            v = it.deref(p, v)
+            k += 1
+        return v
+
+    def chars(it, p, fid, f, t, a):
+        x = deref(it, p, a[0])
+        if not isinstance(x, Str):
+            return NotImplemented
+        return jumps._slice_iter(it, p, fid, f, t, [Tup([Int(ord(ch), "char") for ch in x.s])])
+
+    def char_pred(fun):
+        def model(it, p, fid, f, t, a):
+            x = deref(it, p, a[0])
+            return absint.mkbool(fun(chr(x.v))) if isinstance(x, Int) else NotImplemented
+        return model
+
+    def is_empty(it, p, fid, f, t, a):
+        x = deref(it, p, a[0])
+        return absint.mkbool(x.s == "") if isinstance(x, Str) else NotImplemented
+    asc = lambda c: ord(c) < 128
+    extra = dict(_hashkeys._iter_models())
+    extra.update({"core::str::<impl str>::chars": chars, "core::str::<impl str>::is_empty": is_empty, "alloc::string::String::is_empty": is_empty,
+                  "core::char::methods::<impl char>::is_ascii_alphanumeric": char_pred(lambda c: asc(c) and c.isalnum()),
+                  "core::char::methods::<impl char>::is_ascii_alphabetic": char_pred(lambda c: asc(c) and c.isalpha()),
+                  "core::char::methods::<impl char>::is_ascii_digit": char_pred(lambda c: asc(c) and c.isdigit()),
+                  "core::char::methods::<impl char>::is_alphanumeric": char_pred(lambda c: c.isalnum()),
+                  "core::char::methods::<impl char>::is_ascii": char_pred(asc),
+                  "core::char::methods::<impl char>::is_whitespace": char_pred(lambda c: c.isspace())})
+    # the iteration over the instruction's own arguments stays _opstack's model
+    extra.pop("core::slice::<impl [T]>::iter", None)
+    extra.pop("core::iter::traits::iterator::Iterator::next", None)
+    n = 0
+    for name in ("adder", "text.join", "_ZN4core3fmt5write17h$LT$..$GT$E", "n\u00e4me", "a b"):
+        outs, ex = _opstack.handler_outcomes(F, fn, 1, ("./libdemo.so", name), extra_models=extra, decided_only=True)
+        kinds = {o[0] for o in outs}
+        key = "%s|call_lib|name|%s" % (rule, name.encode("ascii", "backslashreplace").decode())
+        label = "call_lib with the symbol name `%s` signals the call" % name
+        if ex or kinds & {"data-dependent", "cutoff"} or not outs:
+            rep.ob(rule, label, "undecided", "outcomes %s" % sorted(map(str, outs))[:3], fn.span, fn=fn.path, key=key)
+            continue
+        n += 1
+        good = kinds == {"Ok"} and all(o[1] == "JumpRequest" for o in outs)
+        rep.ob(rule, label, "ok" if good else "violated",
+               "" if good else "outcomes %s: the handler refuses the name by its spelling, the function the library exports under it is never called" % sorted(map(str, outs))[:3],
+               fn.span, fn=fn.path, key=key)
+    rep.floor(rule + " symbol names evaluated", n, 4)
